@@ -1,4 +1,5 @@
 import ast
+from keyword import iskeyword
 from typing import Dict, List, Optional, Tuple, cast
 
 from graphql import (
@@ -139,7 +140,9 @@ def parse_input_const_value_node(
         if nested_object:
             # field_type is the input type here, model_validate turns names into members
             return generate_constant(node.value)
-        return generate_name(f"{field_type}.{node.value}")
+        # enums module names values being keywords with trailing underscore
+        member_name = node.value + "_" if iskeyword(node.value) else node.value
+        return generate_name(f"{field_type}.{member_name}")
 
     if isinstance(node, ListValueNode):
         list_ = generate_list(
